@@ -88,6 +88,7 @@ def grep_gate():
 def regen_tables():
     """-> (ok, message).  Writes coq/gen/Tables.v only when the content changes."""
     out = os.path.join(COQ, "gen", "Tables.v")
+    os.makedirs(os.path.join(COQ, "gen"), exist_ok=True)     # not tracked by git: absent in a fresh checkout
     rc, txt, _ = run([PY, os.path.join(VERIF, "harness", "extract_tables.py"), out], 120, env=child_env())
     msgs = [txt.strip()]
     ok = rc == 0
@@ -104,6 +105,7 @@ def regen_tables():
 def write_if_changed(path, text):
     """Used by table generators: keep mtime when nothing changed (incremental make)."""
     old = open(path).read() if os.path.exists(path) else None
+    os.makedirs(os.path.dirname(path) or ".", exist_ok=True)
     if old != text:
         tmp = path + ".tmp%d" % os.getpid()
         with open(tmp, "w") as f:
